@@ -1,4 +1,5 @@
 import PySMT.Impl.Simplifier
+import PySMT.Impl.Subst
 /-!
 # Model of `EagerModel.get_value` (pysmt/solvers/eager.py:43-79)
 
@@ -15,10 +16,11 @@ import PySMT.Impl.Simplifier
 
 The assignment maps *symbols* to *constants*. On quantifier-free formulas the (MG)
 substituter replaces every occurrence of an assigned symbol and rebuilds the other nodes
-with the `FormulaManager` constructors; that rebuilding is subsumed by the simplifier, which
-rebuilds every node again (`simp` of the raw replacement `substConst` = `simplify` of the
-rebuilt term — compared end to end by the driver request `getvalue`). The general
-substituter (binders, term keys, interpretations) is `Impl/Subst.lean` (C05).
+with the `FormulaManager` constructors. Two models: `getValue'` / `satisfies'` (end of this file)
+use the model of that substituter (`Subst.substMG`, Impl/Subst.lean, C05) — this is the code's
+pipeline, compared end to end with the real code by `Drivers/C02.lean`; `getValue` / `satisfies`
+replace the symbols in place (`substConst`, no rebuilding). `Props/C02.lean` proves the same
+theorems for both and that they return the same constant (`getValue'_eq_getValue_partial`).
 -/
 namespace PySMT.Model
 open PySMT.Simplifier
@@ -77,5 +79,35 @@ def satisfies (σ : Asg) (f : Term) : Option Bool :=
   match complete σ f.fv with
   | none => none
   | some σ' => some (Build.isTrue (simp (substConst σ' f)))
+
+/-! ## the code's own substitution step
+
+`get_value` / `satisfies` call `self.environment.substituter.substitute(formula, assignment)`; the
+default substituter of an `Environment` is `MGSubstituter`, which **rebuilds** every node it does not
+replace through the `FormulaManager` constructors (`Div(x, c)` becomes `Times(x, 1/c)`, `Not(Not x)`
+collapses, `ToReal` of a constant folds, bit-vector payloads are recomputed, array values go through
+`Array(...)`): `Subst.substMG` (Impl/Subst.lean, the model of C05). `getValue'` / `satisfies'` are
+`get_value` / `satisfies` with this step; `getValue` / `satisfies` above replace the symbols in place.
+The two agree wherever the result is a constant (`Props/C02.lean: getValue'_eq_getValue_partial`). -/
+
+/-- the assignment as the `dict` handed to `substitute`: symbol node ↦ value -/
+def Asg.toTMap (σ : Asg) : Subst.TMap := σ.map (fun kv => (Term.sym kv.1, kv.2))
+
+/-- `substituter.substitute(f, assignment)` with the environment's `MGSubstituter` -/
+def substAsg (σ : Asg) (f : Term) : Term := Subst.substMG false [] σ.toTMap f
+
+/-- `get_value` with the code's substitution step; `none` = the method raises -/
+def getValue' (completion : Bool) (σ : Asg) (f : Term) : Option Term :=
+  match (if completion then complete σ f.fv else some σ) with
+  | none => none
+  | some σ' =>
+    let r := simp (substAsg σ' f)
+    if Build.isConstant r then some r else none
+
+/-- `Model.satisfies` with the code's substitution step -/
+def satisfies' (σ : Asg) (f : Term) : Option Bool :=
+  match complete σ f.fv with
+  | none => none
+  | some σ' => some (Build.isTrue (simp (substAsg σ' f)))
 
 end PySMT.Model
